@@ -8,6 +8,7 @@ import (
 	"os/exec"
 	"path/filepath"
 	"regexp"
+	"sort"
 	"strings"
 	"time"
 
@@ -148,21 +149,23 @@ func (P *Program) tryReplay(dir, prop string, r *FuncResult, o *Obligation, log 
 	if tpl := P.templateReplay(dir, prop, r, o, vals, log); tpl != "" {
 		return tpl
 	}
-	if fn.Signature.Recv() != nil || len(fn.FreeVars) > 0 {
-		fmt.Fprintf(log, "replay: no automatic template for methods/closures\n")
+	if len(fn.FreeVars) > 0 {
+		fmt.Fprintf(log, "replay: no automatic template for closures\n")
 		return ""
 	}
 	imports := map[string]string{"testing": "testing", "fmt": "fmt"}
 	q := qualifier(fn.Pkg.Pkg, imports)
 	var decl, args []string
+	isMethod := fn.Signature.Recv() != nil
 	for i, p := range fn.Params {
 		name := fmt.Sprintf("a%d", i)
 		ts := types.TypeString(p.Type(), q)
-		mv := vals[fmt.Sprintf("p_%s!%d", sanitizeHint(p.Name()), 0)]
-		// find by prefix (symbol numbers vary)
+		psym := ""
+		mv := ""
 		for k, v := range vals {
 			if strings.HasPrefix(k, "p_"+sanitizeHint(p.Name())+"!") {
 				mv = v
+				psym = k
 			}
 		}
 		switch u := p.Type().Underlying().(type) {
@@ -194,27 +197,63 @@ func (P *Program) tryReplay(dir, prop string, r *FuncResult, o *Obligation, log 
 				return ""
 			}
 		case *types.Slice:
-			if b, ok := u.Elem().Underlying().(*types.Basic); ok && b.Kind() == types.Uint8 {
-				ln, cp := "0", "0"
-				if f := fieldsOfCtor(mv, "mkSlice"); len(f) == 4 {
-					if iv, ok := smtInt(f[2]); ok {
-						ln = iv
-					}
-					if iv, ok := smtInt(f[3]); ok {
-						cp = iv
-					}
+			ln, cp := "0", "0"
+			var f []string
+			if f = fieldsOfCtor(mv, "mkSlice"); len(f) == 4 {
+				if iv, ok := smtInt(f[2]); ok {
+					ln = iv
 				}
-				decl = append(decl, fmt.Sprintf("var %s %s = make(%s, clampLen(%s), clampLen(%s))", name, ts, ts, ln, cp))
-			} else {
+				if iv, ok := smtInt(f[3]); ok {
+					cp = iv
+				}
+			}
+			eb, isBasic := u.Elem().Underlying().(*types.Basic)
+			if !isBasic || eb.Info()&(types.IsInteger|types.IsBoolean) == 0 {
+				if ln == "0" {
+					decl = append(decl, fmt.Sprintf("var %s %s", name, ts))
+					break
+				}
 				fmt.Fprintf(log, "replay: slice parameter %s not renderable\n", p.Name())
 				return ""
+			}
+			decl = append(decl, fmt.Sprintf("var %s %s = make(%s, clampLen(%s), clampLen(%s))", name, ts, ts, ln, cp))
+			// element values requested from the model: (select (select |E:..@0| (lref p)) (+ (loff p) k))
+			for k := 0; k < 8; k++ {
+				key := fmt.Sprintf("(select (select |E:%s@0| (lref %s)) (+ (loff %s) %d))", typeName(u.Elem()), psym, psym, k)
+				alt := fmt.Sprintf("(select (select E:%s@0 (lref %s)) (+ (loff %s) %d))", typeName(u.Elem()), psym, psym, k)
+				v, ok := vals[key]
+				if !ok {
+					v, ok = vals[alt]
+				}
+				if !ok {
+					continue
+				}
+				if eb.Info()&types.IsBoolean != 0 {
+					decl = append(decl, fmt.Sprintf("if len(%s) > %d { %s[%d] = %s }", name, k, name, k, strings.TrimSpace(v)))
+				} else if iv, ok := smtInt(v); ok {
+					decl = append(decl, fmt.Sprintf("if len(%s) > %d { %s[%d] = %s }", name, k, name, k, iv))
+				}
 			}
 		case *types.Pointer:
 			if _, ok := u.Elem().Underlying().(*types.Array); ok {
 				decl = append(decl, fmt.Sprintf("var %s = new(%s)", name, types.TypeString(u.Elem(), q)))
+			} else if stt, ok := u.Elem().Underlying().(*types.Struct); ok {
+				if iv, ok := smtInt(mv); ok && iv == "0" {
+					decl = append(decl, fmt.Sprintf("var %s %s", name, ts))
+					break
+				}
+				decl = append(decl, fmt.Sprintf("var %s = new(%s)", name, types.TypeString(u.Elem(), q)))
+				decl = append(decl, structFieldAssigns(name, "F:"+typeName(u.Elem()), stt, psym, vals, q)...)
 			} else {
 				fmt.Fprintf(log, "replay: pointer parameter %s not renderable\n", p.Name())
 				return ""
+			}
+		case *types.Interface:
+			if ts == "context.Context" {
+				imports["context"] = "context"
+				decl = append(decl, fmt.Sprintf("var %s %s = context.Background()", name, ts))
+			} else {
+				decl = append(decl, fmt.Sprintf("var %s %s", name, ts))
 			}
 		default:
 			fmt.Fprintf(log, "replay: parameter %s of type %s not renderable\n", p.Name(), ts)
@@ -222,49 +261,69 @@ func (P *Program) tryReplay(dir, prop string, r *FuncResult, o *Obligation, log 
 		}
 		args = append(args, name)
 	}
-	call := fmt.Sprintf("%s(%s)", fn.Name(), strings.Join(args, ", "))
+	variadic := fn.Signature.Variadic()
+	var call string
+	callArgs := append([]string{}, args...)
+	if isMethod {
+		callArgs = callArgs[1:]
+	}
+	if variadic && len(callArgs) > 0 {
+		callArgs[len(callArgs)-1] += "..."
+	}
+	if isMethod {
+		call = fmt.Sprintf("%s.%s(%s)", args[0], fn.Name(), strings.Join(callArgs, ", "))
+	} else {
+		call = fmt.Sprintf("%s(%s)", fn.Name(), strings.Join(callArgs, ", "))
+	}
 	nres := fn.Signature.Results().Len()
 	var lhs []string
 	for i := 0; i < nres; i++ {
 		lhs = append(lhs, fmt.Sprintf("r%d", i))
 	}
-	body := ""
+	// parameter names visible to the clause
+	pre := ""
+	for i, p := range fn.Params {
+		if p.Name() != "" && p.Name() != "_" {
+			pre += fmt.Sprintf("\t%s := a%d; _ = %s\n", p.Name(), i, p.Name())
+		}
+	}
+	check := ""
+	oldDecl := ""
+	if o.Kind == "post" && goExpressible(stripOld(o.Src)) {
+		expr, olds := extractOld(o.Src)
+		for i, oe := range olds {
+			oldDecl += fmt.Sprintf("\t_old%d := %s; _ = _old%d\n", i, oe, i)
+		}
+		post := ""
+		if nres == 1 {
+			post += "\tresult := r0; _ = result\n"
+			if nm := fn.Signature.Results().At(0).Name(); nm != "" && nm != "_" {
+				post += fmt.Sprintf("\t%s := r0; _ = %s\n", nm, nm)
+			}
+		} else {
+			for i := 0; i < nres; i++ {
+				post += fmt.Sprintf("\tresult%d := r%d; _ = result%d\n", i, i, i)
+				if nm := fn.Signature.Results().At(i).Name(); nm != "" && nm != "_" {
+					post += fmt.Sprintf("\t%s := r%d; _ = %s\n", nm, i, nm)
+				}
+			}
+		}
+		check = post + fmt.Sprintf("\tif !(%s) {\n\t\tt.Fatalf(\"REPRODUCED: postcondition %%s violated\", %q)\n\t}\n", expr, o.Src)
+	}
+	body := pre + oldDecl
 	if nres > 0 {
-		body = strings.Join(lhs, ", ") + " := " + call + "\n"
+		body += "\t" + strings.Join(lhs, ", ") + " := " + call + "\n"
 		for _, l := range lhs {
 			body += "\t_ = " + l + "\n"
 		}
 	} else {
-		body = call + "\n"
-	}
-	check := ""
-	if o.Kind == "post" && nres >= 1 && goExpressible(o.Src) {
-		expr := o.Src
-		// bind parameter names and result names
-		pre := ""
-		for i, p := range fn.Params {
-			pre += fmt.Sprintf("\t%s := a%d; _ = %s\n", p.Name(), i, p.Name())
-		}
-		if nres == 1 {
-			pre += "\tresult := r0; _ = result\n"
-			if nm := fn.Signature.Results().At(0).Name(); nm != "" && nm != "_" {
-				pre += fmt.Sprintf("\t%s := r0; _ = %s\n", nm, nm)
-			}
-		} else {
-			for i := 0; i < nres; i++ {
-				pre += fmt.Sprintf("\tresult%d := r%d; _ = result%d\n", i, i, i)
-				if nm := fn.Signature.Results().At(i).Name(); nm != "" && nm != "_" {
-					pre += fmt.Sprintf("\t%s := r%d; _ = %s\n", nm, i, nm)
-				}
-			}
-		}
-		check = pre + fmt.Sprintf("\tif !(%s) {\n\t\tt.Fatalf(\"REPRODUCED: postcondition %%s violated\", %q)\n\t}\n", expr, o.Src)
+		body += "\t" + call + "\n"
 	}
 	var imp []string
-	for path, name := range imports {
-		_ = name
+	for path := range imports {
 		imp = append(imp, fmt.Sprintf("\t%q", path))
 	}
+	sort.Strings(imp)
 	src := fmt.Sprintf(`package %s
 
 // Replay of failed obligation %s
@@ -286,6 +345,13 @@ func clampLen(n int) int {
 
 func implies(a, b bool) bool { return !a || b }
 
+func ite[T any](c bool, a, b T) T {
+	if c {
+		return a
+	}
+	return b
+}
+
 var _ = fmt.Sprint
 
 func TestLvcReplay(t *testing.T) {
@@ -295,10 +361,80 @@ func TestLvcReplay(t *testing.T) {
 		}
 	}()
 	%s
-	%s
-%s}
+%s%s}
 `, fn.Pkg.Pkg.Name(), o.Name, strings.Join(imp, "\n"), strings.Join(decl, "\n\t"), body, check)
 	return P.runReplay(dir, fn, o, src, log)
+}
+
+// structFieldAssigns renders "name.f = v" for the scalar fields whose pre-state value is in the model.
+func structFieldAssigns(name, comp string, stt *types.Struct, psym string, vals map[string]string, q types.Qualifier) []string {
+	var out []string
+	var walk func(prefix, cprefix string, st *types.Struct)
+	walk = func(prefix, cprefix string, st *types.Struct) {
+		for i := 0; i < st.NumFields(); i++ {
+			f := st.Field(i)
+			if inner, ok := f.Type().Underlying().(*types.Struct); ok {
+				walk(prefix+"."+f.Name(), cprefix+"."+f.Name(), inner)
+				continue
+			}
+			b, ok := f.Type().Underlying().(*types.Basic)
+			if !ok || b.Info()&(types.IsInteger|types.IsBoolean) == 0 {
+				continue
+			}
+			leaf := cprefix + "." + f.Name() + "@0"
+			var v string
+			found := false
+			for _, key := range []string{"(select |" + leaf + "| " + psym + ")", "(select " + leaf + " " + psym + ")"} {
+				if x, ok := vals[key]; ok {
+					v, found = x, true
+				}
+			}
+			if !found {
+				continue
+			}
+			if b.Info()&types.IsBoolean != 0 {
+				out = append(out, fmt.Sprintf("%s%s.%s = %s", name, prefix, f.Name(), strings.TrimSpace(v)))
+			} else if iv, ok := smtInt(v); ok {
+				out = append(out, fmt.Sprintf("%s%s.%s = %s(%s)", name, prefix, f.Name(), types.TypeString(f.Type(), q), iv))
+			}
+		}
+	}
+	walk("", comp, stt)
+	return out
+}
+
+// extractOld replaces old(e) by _oldK and returns the inner expressions.
+func extractOld(src string) (string, []string) {
+	var olds []string
+	var sb strings.Builder
+	for i := 0; i < len(src); {
+		if strings.HasPrefix(src[i:], "old(") && (i == 0 || !isIdentChar(src[i-1])) {
+			d := 0
+			j := i + 3
+			for ; j < len(src); j++ {
+				if src[j] == '(' {
+					d++
+				} else if src[j] == ')' {
+					d--
+					if d == 0 {
+						break
+					}
+				}
+			}
+			olds = append(olds, src[i+4:j])
+			fmt.Fprintf(&sb, "_old%d", len(olds)-1)
+			i = j + 1
+			continue
+		}
+		sb.WriteByte(src[i])
+		i++
+	}
+	return sb.String(), olds
+}
+
+func stripOld(src string) string {
+	e, _ := extractOld(src)
+	return e
 }
 
 func goExpressible(src string) bool {
